@@ -239,12 +239,24 @@ class Gen:
             st["steps"].append(Step("select", "select {%s}" % ", ".join(its), "TSelect [%s]" % "; ".join(cis), final=True))
             st["cols"] = [(None, c) for c in fc]
         ordered = st["order"] is not None and st["uniq"] is not None
-        return Program(st["steps"], ordered, [c for _, c in st["cols"]], {"order": st["order"]})
+        # positions (in the final frame) of the sort keys in effect, when they are plain columns that survive
+        key_pos = None
+        if st["order"] is not None and final_select:
+            names = [c for _, c in st["cols"]]
+            kp = []
+            for d, e in st["order"]:
+                if e[0] == "col" and e[2] in names and (e[1] in (None, "t")):
+                    kp.append((names.index(e[2]), d))
+                else:
+                    kp = None
+                    break
+            key_pos = kp
+        return Program(st["steps"], ordered, [c for _, c in st["cols"]], {"order": st["order"], "key_pos": key_pos})
 
     # each t_* returns a Step or None (not applicable in the current state)
     def t_join(self, st):
         r = self.r
-        if st["joined"] or st["cols"] != [(None, c) for c in TABLES["t"]] or st["steps"]:
+        if st["joined"] or st["cols"] != [(None, c) for c in TABLES["t"]] or any(x.kind not in ("sort", "filter", "take") for x in st["steps"]):
             return None
         side = r.choice(["Inner", "LeftJ"])
         on = ("bin", "Eq", ("col", "t", "g"), ("col", "u", "g"))
@@ -253,7 +265,21 @@ class Gen:
         st["cols"] = [("t", c) for c in TABLES["t"]] + [("u", c) for c in TABLES["u"]]
         st["joined"] = True
         st["uniq"] = None
-        st["order"] = None
+        # the left input's order is retained by join; its keys are now qualified
+        if st["order"] is not None:
+            def requal(e):
+                if e[0] == "col":
+                    return ("col", "t", e[2])
+                if e[0] == "bin":
+                    return ("bin", e[1], requal(e[2]), requal(e[3]))
+                if e[0] in ("neg", "not"):
+                    return (e[0], requal(e[1]))
+                if e[0] == "isnull":
+                    return ("isnull", requal(e[1]), e[2])
+                if e[0] == "case":
+                    return ("case", [(requal(c), requal(v)) for c, v in e[1]])
+                return e
+            st["order"] = [(d, requal(e)) for d, e in st["order"]]
         return Step("join", "join %su (%s)" % ("side:left " if side == "LeftJ" else "", prql_expr(on)),
                     "TJoin %s %d%%N %s U_TABLE %s" % (side, nid("u"), coq_names(TABLES["u"]), coq_expr(on)), side=side)
 
